@@ -63,13 +63,14 @@ theorem fits_write_attempted (c : Ctx) (m : Msg) (h : c.sizeOk m.pkt = true) :
     · right
       by_cases h6 : pktType pkt = 6 <;> simp [Ctx.handleMsg, h, Msg.pkt, h3, h6]
 
-/-- **Where the limit comes from.** CONNACK's Maximum Packet Size, when present, replaces the limit; when absent the
-    previous value stays (none on a fresh context: no limit). -/
+/-- **Where the limit comes from.** The limit in force is exactly the Maximum Packet Size of the connection's CONNACK:
+    present ⇒ that value, absent ⇒ no limit — whatever an earlier connection of the same context announced (none on a
+    fresh context). -/
 theorem maxPkt_from_connack (c : Ctx) (k : ConnackRx) :
-    (c.handleConnack k).maxPkt = (k.maxPacketSize <|> c.maxPkt) ∧ ({} : Ctx).maxPkt = none := by
+    (c.handleConnack k).maxPkt = k.maxPacketSize ∧ ({} : Ctx).maxPkt = none := by
   refine ⟨?_, rfl⟩
   unfold Ctx.handleConnack
-  cases k.maxPacketSize <;> cases k.sessionExpiry <;> simp
+  cases k.sessionExpiry <;> simp
 
 /-- serving never changes the limit: it is the one of the last CONNACK for the whole connection -/
 theorem maxPkt_constant (c : Ctx) (is : List CIn) : (c.serve is).1.maxPkt = c.maxPkt := by
